@@ -14,7 +14,11 @@ TECHNIQUE = ("reference model of the documented trans-block semantics + recordin
              "translations + extraction membership check")
 RULE = ("case = (generated trans block [context string, trimmed/notrimmed, 0-3 bindings: bare / "
         "name=var / attr / filter / const / call, text pieces with % %% %s %(x)s { } newlines "
-        "markup, pluralize with/without explicit count, whitespace control on the tags, optional "
+        "markup, pluralize with every documented way the count is determined: `{% pluralize name %}` "
+        "naming any bound variable, else the first binding (bindings in random, non-alphabetical order), "
+        "else - no binding - the first variable USED in the singular text among 1-4 free variables whose "
+        "order of use is independent of their alphabetical order and whose values (often counts too) "
+        "disagree about singular / plural; whitespace control on the tags, optional "
         "documentation-style layout: text starts on the line after the tag, closing/pluralize tag "
         "indented on its own line], wrapper [plain/if/for/macro/block/{% autoescape true|false|"
         "runtime flag %}], data) x (old|new style) x (env autoescape on|off) x (policy "
@@ -31,8 +35,9 @@ LEVEL_TEXT = ("held (modulo listed known findings) on K generated block renders:
               "delimiters, generated blocks only")
 ASSUMPTIONS = [
     "identity translations: gettext(m)=m, ngettext(s,p,n)= s if n==1 else p (gettext.NullTranslations semantics)",
-    "implicit plural count is only generated where 'first variable' is unambiguous (first binding is also "
-    "the first variable used in the singular text, or there are no bindings)",
+    "implicit plural count is only generated where 'first variable in a block' is unambiguous: the first "
+    "binding is also the first variable used in the singular text, or there are no bindings and the count is "
+    "the first variable used in the singular text (any number of other free variables after it)",
     "binding expressions are pure; values are str/int/float/Markup/None",
     "lstrip_blocks is only credited with removing spaces/tabs that follow a line break inside the same "
     "text run (the documented 'from the start of a line to a block'); trim_blocks with one '\\n' "
@@ -47,6 +52,12 @@ FLOORS = {
               "counters": {"render_checks": 4400, "extract_ast_checks": 5000,
                            "extract_babel_checks": 5000, "plural_blocks": 2000,
                            "count_arg_checks": 2200, "style:old": 2200, "style:new": 2200,
+                           "count_mode:pluralize-parameter": 500, "count_mode:first-binding": 500,
+                           "count_mode:first-used-free-variable": 500, "count_free_multi": 450,
+                           "count_free_first_used_not_alphabetically_first": 280,
+                           "count_free_other_variable_disagrees_on_form": 240,
+                           "count_free_alphabetically_earlier_variable_disagrees_on_form": 130,
+                           "count_bound_not_alphabetically_first": 350,
                            "autoescape_on": 2200, "trimmed_effective": 2200, "ctx_blocks": 2200,
                            "pct_blocks": 2200, "exprcall_checks": 200,
                            "lexopt_exactly_one": 2200, "lexopt_exactly_one+layout": 700,
@@ -59,6 +70,14 @@ FLOORS = {
                  "counters": {"render_checks": 150000, "extract_ast_checks": 165000,
                               "extract_babel_checks": 165000, "plural_blocks": 64000,
                               "count_arg_checks": 75000, "style:old": 70000, "style:new": 70000,
+                              "count_mode:pluralize-parameter": 14000,
+                              "count_mode:first-binding": 14000,
+                              "count_mode:first-used-free-variable": 14000,
+                              "count_free_multi": 11000,
+                              "count_free_first_used_not_alphabetically_first": 7000,
+                              "count_free_other_variable_disagrees_on_form": 6000,
+                              "count_free_alphabetically_earlier_variable_disagrees_on_form": 3300,
+                              "count_bound_not_alphabetically_first": 8500,
                               "autoescape_on": 70000, "trimmed_effective": 70000,
                               "ctx_blocks": 70000, "pct_blocks": 70000, "exprcall_checks": 200,
                               "lexopt_exactly_one": 70000, "lexopt_exactly_one+layout": 24000,
@@ -120,9 +139,14 @@ def gen_block(r):
     explicit = plural and nb > 0 and r.random() < 0.5
     plvar = r.choice(names) if explicit else None
     free = [n for n in NAMES if n not in names]
-    body_free = r.sample(free, r.choice([0, 0, 1]))
-    if plural and nb == 0 and not body_free:
-        body_free = [r.choice(free)]
+    # free variables of the body (not bound in the tag), in the order of r.sample: the order of
+    # first use in the text is independent of the alphabetical order of the names
+    body_free = r.sample(free, r.choice([0, 0, 1, 2]))
+    if plural and nb == 0:
+        # no binding and no explicit pluralize variable: the count is the first variable USED in
+        # the singular text; 1-4 free variables, so the first used one is usually not the
+        # alphabetically first (nor the last) of the block's names
+        body_free = r.sample(free, r.choice([1, 2, 2, 3, 3, 4]))
     # which name decides the plural
     if plural:
         count_name = plvar or (names[0] if names else body_free[0])
@@ -162,9 +186,12 @@ def gen_block(r):
             data["lst_" + n] = ["list", lst]
             binds.append([n, "len", "lst_" + n + "|length"])
     for n in body_free:
-        data[n] = gen_scalar(r, n == count_name)
+        # in a plural block the other free variables are often counts too, with values that
+        # disagree with the count about singular / plural
+        data[n] = gen_scalar(r, n == count_name or (plural and r.random() < 0.6))
 
     usable = names + body_free
+    multi_free = plural and nb == 0 and len(body_free) > 1
 
     def body(first=None):
         out = []
@@ -172,6 +199,11 @@ def gen_block(r):
             if r.random() < 0.6:
                 out.append(["t", r.choice(TEXTS)])
             out.append(["v", first, ""])
+            for n in usable:
+                # every other free variable of a binding-less plural block is used after it
+                if multi_free and n != first and r.random() < 0.8:
+                    out.append(["t", r.choice(TEXTS)])
+                    out.append(["v", n, ""])
         for _ in range(r.randint(0 if first else 1, 4)):
             if usable and r.random() < 0.4:
                 out.append(["v", r.choice(usable), r.choice(["", "", "", "-", "l", "r"])])
@@ -528,9 +560,32 @@ def check_block(ctx, b, newstyle, autoescape, policy, lex=(False, False)):
         ctx.count("pct_blocks")
     if (b["trim"] == "trimmed") or (b["trim"] is None and policy):
         ctx.count("trimmed_effective")
+    data = {k: make_value(v) for k, v in b["data"].items()}
+    mode = None
     if nforms == 2:
         ctx.count("plural_blocks")
-    data = {k: make_value(v) for k, v in b["data"].items()}
+        # how the block determines its count (docs/templates.rst: "By default, the first variable
+        # in a block is used ...  If that isn't correct, specify the variable used for pluralizing
+        # as a parameter to pluralize")
+        mode = ("pluralize-parameter" if b["plvar"] else
+                "first-binding" if b["binds"] else "first-used-free-variable")
+        ctx.count("count_mode:" + mode)
+        used = []
+        for p in b["sing"] + b["plur"]:
+            if p[0] == "v" and p[1] not in used:
+                used.append(p[1])
+        if mode == "first-used-free-variable" and len(used) > 1:
+            ctx.count("count_free_multi")
+            if b["count_name"] != min(used):
+                ctx.count("count_free_first_used_not_alphabetically_first")
+            if any((data[n] == 1) != (count == 1) for n in used if n != b["count_name"]):
+                ctx.count("count_free_other_variable_disagrees_on_form")
+            if any((data[n] == 1) != (count == 1) for n in used if n < b["count_name"]):
+                ctx.count("count_free_alphabetically_earlier_variable_disagrees_on_form")
+        if mode != "first-used-free-variable" and len(b["binds"]) > 1:
+            bound = [bd[0] for bd in b["binds"]]
+            if b["count_name"] != min(bound):
+                ctx.count("count_bound_not_alphabetically_first")
     data.update(yes=True, two=[0, 1])
     del rec.calls[:]
     try:
@@ -587,9 +642,9 @@ def check_block(ctx, b, newstyle, autoescape, policy, lex=(False, False)):
         if nforms == 2:
             ctx.count("count_arg_checks")
             if not (n == count and type(n) is type(count)):
-                ctx.violation(f"count-argument:{style}",
+                ctx.violation(f"count-argument:{style}:{mode}",
                               f"{src!r}: plural count passed as {n!r}, the block's count variable "
-                              f"{b['count_name']} is {count!r}", case)
+                              f"{b['count_name']} ({mode}) is {count!r}", case)
         if b["ctx"] is not None and strs[0] != b["ctx"]:
             ctx.violation(f"context-string:{style}", f"{src!r}: context passed as {strs[0]!r}", case)
     # extraction
@@ -615,7 +670,9 @@ def check_block(ctx, b, newstyle, autoescape, policy, lex=(False, False)):
     if b["sing"]:
         ctx.dist((style, autoescape, policy, b["ctx"] is not None, b["trim"],
                   [bd[1] for bd in b["binds"]],
-                  "none" if b["plur"] is None else ("explicit" if b["plvar"] else "implicit"),
+                  "none" if b["plur"] is None else ("explicit" if b["plvar"] else
+                                                    "implicit" if b["binds"] else
+                                                    "implicit-free%d" % min(len(b["data"]), 3)),
                   sorted(feats), b["wrap"], sorted(k for k, v in b["ws"].items() if v),
                   lex, bool(b.get("layout"))))
 
